@@ -329,7 +329,15 @@ tl::expected<std::string, errors> canonicalize_hostname(
     needs_processing |=
         !(char_class_table[static_cast<uint8_t>(c)] & CHAR_SIMPLE_HOSTNAME);
   }
+#ifdef ADA_URL_ADA_VERIF
+  if (ada_verif_buggify(113)) {
+    needs_processing = true;  // decline the simple-hostname shortcut
+  }
+#endif
   if (!needs_processing && !checkers::is_ipv4(input)) {
+#ifdef ADA_URL_ADA_VERIF
+    ada_verif_probe(313);
+#endif
     return std::string(input);
   }
 
@@ -493,7 +501,15 @@ tl::expected<std::string, errors> canonicalize_pathname(
     needs_processing |=
         !(char_class_table[static_cast<uint8_t>(c)] & CHAR_SIMPLE_PATHNAME);
   }
+#ifdef ADA_URL_ADA_VERIF
+  if (ada_verif_buggify(114)) {
+    needs_processing = true;  // decline the simple-pathname shortcut
+  }
+#endif
   if (!needs_processing) {
+#ifdef ADA_URL_ADA_VERIF
+    ada_verif_probe(314);
+#endif
     return std::string(input);
   }
 
